@@ -502,7 +502,7 @@ class Gen:
 
 
 SOUP = (OPS + OPS + ['=', '&', '|', '!', '!', '<>', '***', '(', '(', ')', ')', ',', ',', '.', ':', '#', '\\', "'", '"', '[', ']',
-                     'a', 'b', 'f', 'ff', 'if', 'x1', '_', 'f(', 'ff(', 'ff (', 'f(x)', 'ff(x)', 'ff()', 'ff(,)', 'ff(a,)',
+                     'a', 'b', 'f', 'ff', 'if', 'x1', '_', 'f(', 'ff(', 'ff (', 'f(x)', 'ff(x)', 'ff()', 'ff(,)', 'ff(a,)', 'ff(,', 'ff(, x)',
                      '1', '0', '5', '+5', '-5', '1.', '1.5', '.5', '1..', '1.5.3', '1e5', '1e+5', '1.e+5', '1e+', '1e-', '1E+5', '1_0', '0x10',
                      '1.5e+3', '1.5e-3', '1e+05',
                      "'s'", "'a\\'b'", "'a\\\\'", "'abc\\'", "'abc", "'\\\\\\'", "'\\'", "''", '"d"', '"a\\"b"', '"a\'b"', '"abc', '""',
